@@ -183,6 +183,45 @@ theorem warn_flow_as_modelled :
     flowOf middlewareFlow "warnResponseWrapper.statusCode" = [(0, "return", "return wr.status")] ∧
     flowOf middlewareFlow "warnResponseWrapper.bodyContents" = [(0, "return", "return wr.body.Bytes()")] := by decide
 
+/-! ### the wrapper methods run as programs -/
+
+/-- every statement of the six state-changing wrapper methods has a meaning, and these are their programs -/
+theorem wrapper_source_programs :
+    wProg (flowOf middlewareFlow "strictResponseWrapper.WriteHeader") = some strictWH ∧
+    wProg (flowOf middlewareFlow "strictResponseWrapper.Write") = some strictW ∧
+    wProg (flowOf middlewareFlow "strictResponseWrapper.flushBodyContents") = some strictFl ∧
+    wProg (flowOf middlewareFlow "warnResponseWrapper.WriteHeader") = some warnWH ∧
+    wProg (flowOf middlewareFlow "warnResponseWrapper.Write") = some warnW ∧
+    wProg (flowOf middlewareFlow "warnResponseWrapper.Flush") = some warnF := by decide
+
+/-- **strict_wrapper_source_is_model.** The statement lists of strictResponseWrapper.WriteHeader / Write /
+flushBodyContents run to exactly `Strict.step` / `Strict.flushOut`, for every wrapper state and argument. -/
+theorem strict_wrapper_source_is_model (w : Strict) (n : Nat) (bs : Bytes) :
+    (wexec noSelf strictWH { WSt.ofStrict w with arg := n }).toStrict = w.step (.writeHeader n) ∧
+    (wexec (selfCall strictWH) strictW { WSt.ofStrict w with bs := bs }).toStrict = w.step (.write bs) ∧
+    (wexec noSelf strictFl (WSt.ofStrict w)).client = w.flushOut := by
+  obtain ⟨hw, st, buf, c⟩ := w
+  refine ⟨?_, ?_, ?_⟩
+  · cases hw <;> cases hi : isInfo n <;>
+      simp [wexec, wstep, wrun, strictWH, WSt.ofStrict, WSt.toStrict, Strict.step, hi]
+  · cases hw <;>
+      simp [wexec, wstep, wrun, strictW, strictWH, selfCall, WSt.ofStrict, WSt.toStrict, Strict.step, isInfo]
+  · cases hw <;>
+      simp [wexec, wstep, wrun, strictFl, WSt.ofStrict, Strict.flushOut]
+
+/-- **warn_wrapper_source_is_model.** The same for warnResponseWrapper.WriteHeader / Write / Flush and `Warn.step`. -/
+theorem warn_wrapper_source_is_model (w : Warn) (n : Nat) (bs : Bytes) :
+    (wexec noSelf warnWH { WSt.ofWarn w with arg := n }).toWarn = w.step (.writeHeader n) ∧
+    (wexec (selfCall warnWH) warnW { WSt.ofWarn w with bs := bs }).toWarn = w.step (.write bs) ∧
+    (wexec noSelf warnF (WSt.ofWarn w)).toWarn = w.step .flush := by
+  obtain ⟨hw, st, buf, c⟩ := w
+  refine ⟨?_, ?_, ?_⟩
+  · cases hw <;> cases hi : isInfo n <;>
+      simp [wexec, wstep, wrun, warnWH, WSt.ofWarn, WSt.toWarn, Warn.step, Warn.writeHeader, hi]
+  · cases hw <;>
+      simp [wexec, wstep, wrun, warnW, warnWH, selfCall, WSt.ofWarn, WSt.toWarn, Warn.step, Warn.writeHeader, isInfo]
+  · simp [wexec, wstep, wrun, warnF, WSt.ofWarn, WSt.toWarn, Warn.step]
+
 /-- `isInformational` is the expression `isInfo` transcribes (http.StatusSwitchingProtocols = 101) -/
 theorem isInformational_as_modelled :
     flowOf middlewareFlow "isInformational" =
